@@ -43,3 +43,73 @@ static inline vstr vstr_substr_short(const vstr* s, size_t pos, size_t len) {
   return r;
 }
 #endif
+#ifndef VSTR_EXT_H
+#define VSTR_EXT_H
+/* further std::string operations (bounded model); npos is (size_t)-1 */
+#define VSTR_NPOS ((size_t)-1)
+static inline vstr vstr_from_cstr(const char* c) {
+  vstr r; r.n = 0; _Bool end = 0;
+  for (size_t i = 0; i < VSTR_CAP; i++) { if (!end && c[i] != 0) { r.d[i] = c[i]; r.n = i + 1; } else { end = 1; r.d[i] = 0; } }
+  __CPROVER_assert(end || c[VSTR_CAP] == 0, "model capacity: C string longer than VSTR_CAP");
+  r.d[VSTR_CAP] = 0;
+  return r;
+}
+static inline void vstr_remove_char(vstr* s, char ch) {       /* s.erase(remove(s.begin(), s.end(), ch), s.end()) */
+  size_t w = 0;
+  for (size_t i = 0; i < VSTR_CAP; i++) { if (i < s->n && s->d[i] != ch) { s->d[w] = s->d[i]; w = w + 1; } }
+  for (size_t i = 0; i <= VSTR_CAP; i++) { if (i >= w) s->d[i] = 0; }
+  s->n = w;
+}
+static inline void vstr_append(vstr* s, const vstr* a) {
+  __CPROVER_assert(s->n + a->n <= VSTR_CAP, "model capacity: string append beyond VSTR_CAP");
+  for (size_t i = 0; i < VSTR_CAP; i++) { if (i < a->n && s->n + i < VSTR_CAP) s->d[s->n + i] = a->d[i]; }
+  s->n = s->n + a->n <= VSTR_CAP ? s->n + a->n : VSTR_CAP;
+  s->d[s->n] = 0;
+}
+static inline size_t vstr_find_cstr(const vstr* s, const char* pat, size_t pos) {   /* patterns of length 1 or 2 */
+  size_t pl = pat[1] == 0 ? 1 : 2;
+  __CPROVER_assert(pat[0] != 0 && (pl == 1 || pat[2] == 0), "model: find() pattern of one or two characters");
+  size_t r = VSTR_NPOS;
+  for (size_t i = 0; i < VSTR_CAP; i++) { if (r == VSTR_NPOS && i >= pos && i + pl <= s->n && s->d[i] == pat[0] && (pl == 1 || s->d[i + 1] == pat[1])) r = i; }
+  return r;
+}
+static inline size_t vstr_find_char(const vstr* s, char ch, size_t pos) {
+  size_t r = VSTR_NPOS;
+  for (size_t i = 0; i < VSTR_CAP; i++) { if (r == VSTR_NPOS && i >= pos && i < s->n && s->d[i] == ch) r = i; }
+  return r;
+}
+static inline size_t vstr_rfind_cstr6(const vstr* s, const char* pat) {             /* pattern of exactly 6 characters (" HTTP/") */
+  size_t r = VSTR_NPOS;
+  for (size_t i = 0; i < VSTR_CAP; i++) {
+    if (i + 6 <= s->n && s->d[i] == pat[0] && s->d[i + 1] == pat[1] && s->d[i + 2] == pat[2] && s->d[i + 3] == pat[3] && s->d[i + 4] == pat[4] && s->d[i + 5] == pat[5]) r = i;
+  }
+  return r;
+}
+static inline void vstr_resize(vstr* s, size_t n) {
+  __CPROVER_assert(n <= s->n, "model: resize only shrinks");
+  for (size_t i = 0; i <= VSTR_CAP; i++) { if (i >= n) s->d[i] = 0; }
+  if (n <= s->n) s->n = n;
+}
+static inline void vstr_erase(vstr* s, size_t pos, size_t len) {
+  __CPROVER_assert(pos <= s->n, "std::string::erase: pos <= size() (else std::out_of_range)");
+  size_t avail = s->n - pos; size_t l = len < avail ? len : avail;
+  for (size_t i = 0; i < VSTR_CAP; i++) { if (i >= pos && i + l < VSTR_CAP + 1) s->d[i] = (i + l <= VSTR_CAP) ? s->d[i + l] : 0; }
+  s->n = s->n - l; s->d[s->n] = 0;
+}
+static inline char* vstr_ref(vstr* s, size_t i) { __CPROVER_assert(i < s->n, "std::string::operator[] index < size()"); return &s->d[i < VSTR_CAP ? i : 0]; }
+#endif
+#ifndef VSTR_EXT2_H
+#define VSTR_EXT2_H
+static inline size_t vstr_find_str(const vstr* s, const vstr* pat, size_t pos) {     /* std::string::find(str, pos) */
+  size_t r = VSTR_NPOS;
+  for (size_t i = 0; i <= VSTR_CAP; i++) {
+    if (r == VSTR_NPOS && i >= pos && i + pat->n <= s->n) {
+      _Bool m = 1;
+      for (size_t k = 0; k < VSTR_CAP; k++) { if (k < pat->n && s->d[i + k <= VSTR_CAP ? i + k : 0] != pat->d[k]) m = 0; }
+      if (m) r = i;
+    }
+  }
+  return r;
+}
+static inline _Bool vstr_eq_lit1(const vstr* s, char c) { return s->n == 1 && s->d[0] == c; }
+#endif
